@@ -242,3 +242,48 @@ package io
 //@   ensures has(this.ctx, "from") ==> this.ctx["from"] == old(this.ctx["from"])
 //@   ensures has(this.ctx, "to") ==> this.ctx["to"] == old(this.ctx["to"])
 //@   modifies this.initialized, this.blockSize, this.bufferThreshold, this.entropyType, this.transformType, this.outputSize, this.nbInputBlocks, this.hasher32, this.hasher64, this.ctx[*], "MH!Int!Iface", "MV!Int!Iface", "A!Iface", this.ibs.rbitsI, this.ibs.ieof, this.ibs.aligned, this.ibs.ipos
+
+//@ -- ------------------------------------------------------------------ hand-off protocol, rely/guarantee view
+//@ -- stability of the three facts under a step of another task j (j != id, j >= 1) that obeys the guarantee
+//@ lemma rg_stable_holding(p int, q int, id int, j int)
+//@   props C07 C04 C05
+//@   requires id >= 1 && j >= 1 && j != id && (q == 0 - 1 || (p == j - 1 && q == j))
+//@   requires p == id - 1 || p == 0 - 1
+//@   ensures q == id - 1 || q == 0 - 1
+//@ lemma rg_stable_published(p int, q int, id int, j int)
+//@   props C07 C04 C05
+//@   requires id >= 1 && j >= 1 && j != id && (q == 0 - 1 || (p == j - 1 && q == j))
+//@   requires p >= id || p == 0 - 1
+//@   ensures q >= id || q == 0 - 1
+//@ lemma rg_stable_cancelled(p int, q int, id int, j int)
+//@   props C07 C04 C05
+//@   requires id >= 1 && j >= 1 && j != id && (q == 0 - 1 || (p == j - 1 && q == j))
+//@   requires p == 0 - 1
+//@   ensures q == 0 - 1
+//@ -- two tasks never hold at the same time; the holder is the one with the smallest unpublished id
+//@ lemma rg_exclusive(p int, id int, j int)
+//@   props C07 C04 C05
+//@   requires id >= 1 && j >= 1 && j != id && p == id - 1
+//@   ensures p != j - 1
+
+//@ func (*encodingTask) encode/rg
+//@   mode int
+//@   props C07 C04
+//@   opt calls may-panic
+//@   opt panics caught
+//@   opt rg-counter this.processedBlockID
+//@   opt rg-id this.currentBlockID
+//@   opt rg-shared this.obs
+//@   requires this.processedBlockID != nil && res != nil && this.wg != nil && this.iBuffer != nil && this.oBuffer != nil && this.ctx != nil && this.obs != nil && this.iBuffer != this.oBuffer
+//@   requires res.err == nil && this.currentBlockID >= 1
+
+//@ func (*decodingTask) decode/rg
+//@   mode int
+//@   props C07 C05
+//@   opt calls may-panic
+//@   opt panics caught
+//@   opt rg-counter this.processedBlockID
+//@   opt rg-id this.currentBlockID
+//@   opt rg-shared this.ibs
+//@   requires this.processedBlockID != nil && res != nil && this.wg != nil && this.iBuffer != nil && this.oBuffer != nil && this.ctx != nil && this.ibs != nil && this.iBuffer != this.oBuffer
+//@   requires res.err == nil && res.decoded == 0 && !res.skipped && this.currentBlockID >= 1
